@@ -6,6 +6,7 @@ import Driver.C17
 import Driver.C11
 import Driver.Signer
 import Driver.C18
+import Driver.C13
 open Lean Driver
 
 def dispatch (p : String) (inp impl : Json) : CaseResult :=
@@ -17,6 +18,7 @@ def dispatch (p : String) (inp impl : Json) : CaseResult :=
   | "C11" => C11.handle inp impl
   | "C02" => Signer.handleC02 inp impl
   | "C18" => C18.handle inp impl
+  | "C13" => C13.handle inp impl
   | "C03" => Signer.handleC03 inp impl
   | _ => { model := Json.null, spec := false, why := "unknown property " ++ p }
 
